@@ -219,6 +219,7 @@ theorem ruleSets_nodup (f : BlobFetch σ) (hd : f.distinct) (rss : List (σ × O
       · exact ih.cons_cons _
       · exact ih.cons _
       · exact ih.cons_cons _
+      · exact ih.cons_cons _
 
 theorem find_map_gone (l : List σ) (s : σ) :
     (l.map (fun id => (id, Obs.gone))).find? (fun p => p.1 = s) = if s ∈ l then some (s, Obs.gone) else none := by
@@ -300,6 +301,7 @@ theorem ruleSets_within (b : σ → Bool) (f : BlobFetch σ) (hw : f.within b) (
     obtain ⟨q, hq, hqp⟩ := hp
     obtain ⟨id, x⟩ := q
     cases x <;> simp only [Option.some.injEq, reduceCtorEq] at hqp
+    · subst hqp; exact hw _ hq
     · subst hqp; exact hw _ hq
     · subst hqp; exact hw _ hq
 
